@@ -253,6 +253,10 @@ def run(chk):
                 'three vnacal_new_t, delete/find/get_name/get_calibration_end, with deleted, reused, predefined, negative and out-of-range handles and indices; '
                 'every calibration built (also from handles deleted while in use) must correct a device')
     chk.extra['model_mismatches'] = nmis
+    # values of solved unknown parameters are those last solved: the same handle solved by two vnacal_new_t on different grids
+    from props import c02
+    if not chk.violations:
+        c02.resolve_histories(chk, exe, rng, 1 if chk.tier == 'quick' else 10)
     chk.samples = [[l[:90] for l in lines[:12]]]
     if broken and not chk.violations:
         chk.violation('obligation', 'proof/correspondence obligations that no longer check:\n' + '\n'.join(broken[:30]), nofail=True)
